@@ -50,9 +50,15 @@ func randSpAlt() ext {
 
 // relative of a spatial ID that is again a spatial ID (h = v)
 func relativeSp(e ext) ext {
-	switch rng.Intn(7) {
+	switch rng.Intn(8) {
 	case 0:
 		return e
+	case 7: // the lowest-corner descendant (all added bits zero) — callers put it next to e, in either order
+		d := int64(1 + rng.Intn(3))
+		if e.h+d > 35 {
+			return e
+		}
+		return ext{e.h + d, e.x << uint(d), e.y << uint(d), e.h + d, e.f << uint(d)}
 	case 6: // numeric twin at a neighbouring zoom: the same x and y NUMBERS and the same offset vertical index f + 2^(z-1)
 		// (the key the single-zoom check stores) — a different voxel, which only the zoom tells apart
 		z2 := e.h + 1
@@ -188,6 +194,11 @@ func init() {
 					} else {
 						lb = append(lb, randSpAlt())
 					}
+				}
+			}
+			if rng.Intn(2) == 0 { // relatives before the element they were derived from
+				for i, j := 0, len(la)-1; i < j; i, j = i+1, j-1 {
+					la[i], la[j] = la[j], la[i]
 				}
 			}
 			sa, sb := maybeCorrupt(spids(la), 0.05), maybeCorrupt(spids(lb), 0.05)
